@@ -135,3 +135,22 @@ class Counter(dict):
 def merge_counts(dst: dict, src: dict):
     for k, v in src.items():
         dst[k] = dst.get(k, 0) + v
+
+
+def library_raised(exc):
+    """True if `exc` came out of library code that the harness called directly (a read of a public attribute, a
+    conversion of a returned object) rather than out of the harness itself: the deepest harness frame of the traceback
+    is followed by a frame inside the `grid` package."""
+    import os
+
+    import grid
+
+    lib = os.path.dirname(os.path.abspath(grid.__file__)) + os.sep
+    here = os.path.dirname(os.path.dirname(os.path.abspath(__file__))) + os.sep
+    frames = []
+    tb = exc.__traceback__
+    while tb is not None:
+        frames.append(os.path.abspath(tb.tb_frame.f_code.co_filename))
+        tb = tb.tb_next
+    last_h = max((i for i, f in enumerate(frames) if f.startswith(here)), default=-1)
+    return last_h >= 0 and last_h + 1 < len(frames) and frames[last_h + 1].startswith(lib)
